@@ -1,7 +1,7 @@
 #!/bin/bash
 # usage: seedtest.sh <patch.diff> <ID> [<ID> ...]   -- run quick checks against a seeded change applied to the scratch worktree
 # /tmp/repo_scratch (created with tools/mkwt.sh); /repo itself is never touched.
-S=/tmp/repo_scratch; P="$1"; shift
+S=${SCRATCH:-/tmp/repo_scratch2}; P="$1"; shift
 git -C $S checkout -q -- . && git -C $S apply "$P" || { echo "patch does not apply"; exit 2; }
 for id in "$@"; do
   VERIF_REPO=$S timeout 3000 python3 /verif/vf/check.py $id --tier quick 2>&1 | grep -E '^(OK|VIOLATION|INFRA|  violation)' | cut -c1-260 | tail -3
